@@ -331,6 +331,13 @@ func (s *SymDense) SymRankOne(a Symmetric, alpha float64, x Vector) {
 	}
 	s.reuseAsNonZeroed(n)
 
+	xU, _ := untransposeExtract(x)
+	rv, fast := xU.(*VecDense)
+	if fast {
+		r, c := xU.Dims()
+		s.checkOverlap(generalFromVector(rv.mat, r, c))
+	}
+
 	if s != a {
 		if rs, ok := a.(RawSymmetricer); ok {
 			s.checkOverlap(generalFromSymmetric(rs.RawSymmetric()))
@@ -338,12 +345,8 @@ func (s *SymDense) SymRankOne(a Symmetric, alpha float64, x Vector) {
 		s.CopySym(a)
 	}
 
-	xU, _ := untransposeExtract(x)
-	if rv, ok := xU.(*VecDense); ok {
-		r, c := xU.Dims()
-		xmat := rv.mat
-		s.checkOverlap(generalFromVector(xmat, r, c))
-		blas64.Syr(alpha, xmat, s.mat)
+	if fast {
+		blas64.Syr(alpha, rv.mat, s.mat)
 		return
 	}
 
